@@ -130,9 +130,13 @@ StepResult(e, m1, rg1) ==
          LET val == Norm(heap, e.t, e.val)
              cl == ConstructClauses("", e.b, e.a, e.t, val, e, m1)
              hp == heap \cup NewObjects(e.b, e.t, val, m1, e.a)
-         IN [cl |-> IF cl # <<>> THEN cl \o ReadClauses(hp, m1, e)
+             \* a referent "created" at the address of an object that already exists (of another type): nothing can be read back
+             \* consistently; the construction clauses say what went wrong
+             clash == \E x \in hp, y \in hp : x.b = y.b /\ x.a = y.a /\ x # y
+         IN [cl |-> IF clash THEN (IF cl # <<>> THEN cl ELSE <<"ref:new-target-on-a-live-object">>)
+                    ELSE IF cl # <<>> THEN cl \o ReadClauses(hp, m1, e)
                     ELSE NonEmpty(<<IF ~RefsResolve(hp) THEN "ref:dangling" ELSE "">>) \o ReadClauses(hp, m1, e),
-             hp |-> hp]
+             hp |-> IF clash THEN heap ELSE hp]
     [] e.op = "copy" /\ e.exc = "" /\ InHeap(heap, e.b, e.a) ->
          [cl |-> <<"alloc:object-placed-on-a-live-object">>, hp |-> heap]
     [] e.op = "copy" ->
